@@ -1276,7 +1276,7 @@ def OP_LOOP(tape: Tape, stack: Stack, cache: dict) -> None:
 
     while bytes_to_bool(condition):
         sert(count < tape.callstack_limit, 'OP_LOOP limit exceeded')
-        run_tape(subtape, stack, cache)
+        run_tape(subtape, stack, cache, additional_flags=tape.flags)
         if 'returned' in cache:
             del cache['returned']
             return
@@ -2153,6 +2153,7 @@ def set_tape_flags(tape: Tape, additional_flags: dict = {}) -> Tape:
     """Sets flags included in flags_to_set and any additional_flags for
         the tape.
     """
+    additional_flags = {**additional_flags}
     for key in flags:
         if type(key) in (str, int):
             tape.flags[key] = flags[key] if key in flags_to_set else False
